@@ -3,6 +3,7 @@ package rules
 import (
 	"fmt"
 	"go/token"
+	"go/types"
 	"math"
 	"sort"
 	"strings"
@@ -40,6 +41,13 @@ func c15(p *core.Prog, r *core.Report) {
 			}
 		}
 		r.Check(ok, "C15-R1", fname(f), "Add: the same peerScore goes into the map and the heap", p.Pos(f.Pos()), "one operand", "a peer can be in the map without being in the heap (never selected) or vice versa")
+		// the insert happens only after a lookup miss made while the write
+		// lock is held: two racing Adds of one host:port would otherwise put
+		// two heap entries behind one map entry.
+		miss, locked := insertAfterLockedMiss(p, f, mapF, "PeerList", "RWMutex")
+		r.Check(miss && locked, "C15-R1", fname(f), "Add: insert only after a lookup miss under the write lock", p.Pos(f.Pos()),
+			"the map update is dominated by a failed comma-ok lookup of the same key made with the write lock held",
+			fmt.Sprintf("a peer can be inserted twice (lookup miss dominating the insert=%v, lookup under the write lock=%v): the map keeps one entry, the heap two", miss, locked))
 	}
 	if f := mustFunc(p, r, "", "PeerList", "Remove"); f != nil {
 		var looked ssa.Value
@@ -324,24 +332,7 @@ func c16(p *core.Prog, r *core.Report) {
 		}
 	}
 	if f := mustFunc(p, r, "", "Peer", "addConnection"); f != nil {
-		d := p.NewDomain("", "connectionState")
-		active := d.Min(d.OfName("connectionActive"))
-		// the append (store through the list pointer) is guarded by readState() == Active
-		ok := false
-		core.EachInstr(f, func(i ssa.Instruction) {
-			st, isSt := i.(*ssa.Store)
-			if !isSt {
-				return
-			}
-			if c, isC := st.Val.(*ssa.Call); isC {
-				if b, isB := c.Call.Value.(*ssa.Builtin); isB && b.Name() == "append" {
-					if factsAt(st.Block()).hasCmp(func(v ssa.Value) bool { return callResult(v, "Connection.readState") != nil }, []token.Token{token.EQL}, active) {
-						ok = true
-					}
-				}
-			}
-		})
-		r.Check(ok, "C16-R1", fname(f), "append only for an active connection", p.Pos(f.Pos()), "guarded by readState() == connectionActive", "non-active connections can be listed under a peer")
+		peerListOnlyActive(p, r, f, "C16-R1")
 		cb := false
 		core.EachInstr(f, func(i ssa.Instruction) {
 			if c, isC := i.(*ssa.Call); isC {
@@ -485,6 +476,53 @@ func c16(p *core.Prog, r *core.Report) {
 		})
 		r.Check(ok, "C16-R4", fname(f), "delete from the root list iff canRemove()", p.Pos(f.Pos()), "guarded", "peers are dropped from the root list unconditionally (or never)")
 	}
+	// the sub-channel reference count moves with list membership: in Add every
+	// path from addSC() to a return inserts the peer into the list's map, in
+	// Remove delSC() and the map delete lie on the same paths; no other callers.
+	if f := mustFunc(p, r, "", "PeerList", "Add"); f != nil {
+		lmap := p.Field("", "PeerList", "peersByHostPort")
+		isIns := func(i ssa.Instruction) bool {
+			mu, ok := i.(*ssa.MapUpdate)
+			return ok && core.LoadedField(mu.Map) == lmap
+		}
+		isRet := func(i ssa.Instruction) bool { _, ok := i.(*ssa.Return); return ok }
+		adds := core.CallsIn(f, "Peer.addSC")
+		ok, how := len(adds) == 1, fmt.Sprintf("%d addSC() calls in Add", len(adds))
+		if ok {
+			leak := core.ReachAvoiding(f, adds[0], isRet, isIns, nil)
+			extra := core.ReachAvoiding(f, nil, isIns, func(i ssa.Instruction) bool { return i == adds[0].(ssa.Instruction) }, nil)
+			if leak.Found {
+				ok, how = false, "a path takes the sub-channel reference and returns without listing the peer (the count never returns to zero, the peer is never removable): "+p.TrailString(leak)
+			} else if extra.Found {
+				ok, how = false, "a peer can be listed without taking the sub-channel reference: "+p.TrailString(extra)
+			}
+		}
+		r.Check(ok, "C16-R4", fname(f), "addSC() exactly on the paths that list the peer", p.Pos(f.Pos()), "no return after addSC avoids the map insert; no insert avoids addSC", how)
+	}
+	if f := mustFunc(p, r, "", "PeerList", "Remove"); f != nil {
+		lmap := p.Field("", "PeerList", "peersByHostPort")
+		isDel := func(i ssa.Instruction) bool {
+			c, ok := core.IsBuiltin(i, "delete")
+			return ok && core.LoadedField(c.Call.Args[0]) == lmap
+		}
+		isRet := func(i ssa.Instruction) bool { _, ok := i.(*ssa.Return); return ok }
+		dels := core.CallsIn(f, "Peer.delSC")
+		ok, how := len(dels) == 1, fmt.Sprintf("%d delSC() calls in Remove", len(dels))
+		if ok {
+			a := core.ReachAvoiding(f, dels[0], isRet, isDel, nil)
+			b := core.ReachAvoiding(f, nil, isDel, func(i ssa.Instruction) bool { return i == dels[0].(ssa.Instruction) }, nil)
+			if a.Found || b.Found {
+				ok, how = false, "the sub-channel reference is dropped without unlisting the peer, or the peer is unlisted without dropping it"
+			}
+		}
+		r.Check(ok, "C16-R4", fname(f), "delSC() exactly on the paths that unlist the peer", p.Pos(f.Pos()), "paired with delete(peersByHostPort, …)", how)
+	}
+	for _, key := range []string{"Peer.addSC", "Peer.delSC"} {
+		for _, cs := range p.CallsTo(key) {
+			want := map[string]string{"Peer.addSC": "(*PeerList).Add", "Peer.delSC": "(*PeerList).Remove"}[key]
+			r.Check(fname(cs.Fn) == want, "C16-R4", fname(cs.Fn), key+" only from "+want, p.Pos(cs.Call.Pos()), "single caller", "the sub-channel reference count is changed outside list membership changes")
+		}
+	}
 	if f := mustFunc(p, r, "", "Peer", "canRemove"); f != nil {
 		names := map[string]bool{}
 		core.EachInstr(f, func(i ssa.Instruction) {
@@ -521,4 +559,59 @@ func operandName(v ssa.Value) string {
 		return core.FieldOfField(x).Name()
 	}
 	return ""
+}
+
+// peerListOnlyActive: the append to a peer's connection list is guarded by
+// readState() == connectionActive (shared by C16 and C11: a connection listed
+// after it closed is never removed, because removal is driven by the
+// close-state callback that has already fired).
+func peerListOnlyActive(p *core.Prog, r *core.Report, f *ssa.Function, rule string) {
+	d := p.NewDomain("", "connectionState")
+	active := d.Min(d.OfName("connectionActive"))
+	ok := false
+	core.EachInstr(f, func(i ssa.Instruction) {
+		st, isSt := i.(*ssa.Store)
+		if !isSt {
+			return
+		}
+		if c, isC := st.Val.(*ssa.Call); isC {
+			if b, isB := c.Call.Value.(*ssa.Builtin); isB && b.Name() == "append" {
+				if factsAt(st.Block()).hasCmp(func(v ssa.Value) bool { return callResult(v, "Connection.readState") != nil }, []token.Token{token.EQL}, active) {
+					ok = true
+				}
+			}
+		}
+	})
+	r.Check(ok, rule, fname(f), "append only for an active connection", p.Pos(f.Pos()), "guarded by readState() == connectionActive", "non-active connections can be listed under a peer")
+}
+
+// insertAfterLockedMiss: the (single) update of map field mapF in f is
+// dominated by a failed comma-ok lookup of the same key, and that lookup is
+// made while the struct's mutex is held in write mode.
+func insertAfterLockedMiss(p *core.Prog, f *ssa.Function, mapF *types.Var, recv, mutex string) (miss, locked bool) {
+	mu := p.Field("", recv, mutex)
+	locks := p.ComputeLocks()
+	core.EachInstr(f, func(i ssa.Instruction) {
+		upd, ok := i.(*ssa.MapUpdate)
+		if !ok || core.LoadedField(upd.Map) != mapF {
+			return
+		}
+		fs := factsAt(upd.Block())
+		fs.hasBool(func(v ssa.Value) bool {
+			ex, ok := v.(*ssa.Extract)
+			if !ok || ex.Index != 1 {
+				return false
+			}
+			lk, ok := ex.Tuple.(*ssa.Lookup)
+			if !ok || !lk.CommaOk || core.LoadedField(lk.X) != mapF || !sameKey(lk.Index, upd.Key) {
+				return false
+			}
+			miss = true
+			if mu != nil && locks.At(lk)[mu] == core.WHeld && locks.At(upd)[mu] == core.WHeld {
+				locked = true
+			}
+			return true
+		}, false)
+	})
+	return
 }
